@@ -465,6 +465,8 @@ func c19(c *core.Ctx) {
 	c.Rule("C19.release", "once handlers[reqID] has been stored, every error return of sendAsyncWithTimeout removes the entry again (popHandler / delete), and every return of sendRequestWithTimeout after a successful send either received from the slot's channel or calls popHandler(reqID)", 5)
 	c.Rule("C19.wait", "the wait for the response is one select with: a receive from the response channel, a timer arm whose duration is timeout + timeoutLeniency, a ctx.Done arm and a disconnected arm", 1)
 	c19Gate(c)
+	c.Rule("C19.balance", "every function of packages uasc and uacp unlocks each mutex it locks on every path to a return (or defers the unlock): an error path that keeps handlersMu / instancesMu / the instance mutex locked wedges every later request", 10)
+	lockBalance(c, "C19.balance", "uasc", "uacp")
 	c.Rule("C19.pending", "pendingReq.Add(1) is followed by pendingReq.Done() on every path of sendRequestWithTimeout", 1)
 
 	// release in sendAsync (the registration, and the code behind it, may live in private helpers)
